@@ -1017,6 +1017,14 @@ impl Compiler {
     ) -> Result<()> {
         use Op::*;
 
+        // The elements are accessed with signed 8 bit indices (negative when indexing from the end)
+        if args.len() > i8::MAX as usize {
+            return self.error(ErrorKind::FunctionPropertyLimit {
+                property: "nested args".into(),
+                amount: args.len(),
+            });
+        }
+
         let mut index_from_end = false;
 
         for (arg_index, &arg) in args.iter().enumerate() {
@@ -4116,6 +4124,14 @@ impl Compiler {
         ctx: CompileNodeContext,
     ) -> Result<()> {
         use Op::*;
+
+        // The elements are accessed with signed 8 bit indices (negative when indexing from the end)
+        if match_is_container && arm_patterns.len() > i8::MAX as usize {
+            return self.error(ErrorKind::FunctionPropertyLimit {
+                property: "nested match patterns".into(),
+                amount: arm_patterns.len(),
+            });
+        }
 
         let mut index_from_end = false;
 
